@@ -28,6 +28,7 @@ var protoErrors = map[string]struct {
 
 func init() {
 	register("C05", func(c *core.Ctx, tier string) {
+		requestRevalidatesTransport(c, "C05.14")
 		muxEffects(c, "C05.7c")
 		baseServerEffects(c, "C05.12")
 		serverEffects(c, "C05.11")
